@@ -316,3 +316,139 @@ package prover
 //@   ensures result == nil && inRange ==> (forall i :: 0 <= i && i < 8 ==> (forall k :: 0 <= k && k < 32 ==>
 //@              p.Proof.raw[32*i + k] == bytes.beByte(str.num(json.coord(data, i)), 32, k)))
 //@   lemmas bitlen_def pow2_mono pow2_256 pow256_32
+
+// ---------------------------------------------------------------------------------------
+// C16 — parameter JSON: field-by-field, element-by-element images under toHex / fromHex
+// ---------------------------------------------------------------------------------------
+
+//@ func (*InsertionParameters) MarshalJSON
+//@   property C16
+//@   requires 0 <= p.InputHash && 0 <= p.PreRoot && 0 <= p.PostRoot
+//@   requires forall i :: 0 <= i && i < len(p.IdComms) ==> 0 <= p.IdComms[i]
+//@   requires forall i, j :: 0 <= i && i < len(p.MerkleProofs) && 0 <= j && j < len(p.MerkleProofs[i]) ==> 0 <= p.MerkleProofs[i][j]
+//@   ensures result1 == nil
+//@   ensures json.pStr(result0, "inputHash") == str.concat("0x", str.hex16(p.InputHash))
+//@   ensures json.pNum(result0, "startIndex") == p.StartIndex
+//@   ensures json.pStr(result0, "preRoot") == str.concat("0x", str.hex16(p.PreRoot))
+//@   ensures json.pStr(result0, "postRoot") == str.concat("0x", str.hex16(p.PostRoot))
+//@   ensures json.pLen(result0, "identityCommitments") == len(p.IdComms)
+//@   ensures forall i :: 0 <= i && i < len(p.IdComms) ==> json.pStrAt(result0, "identityCommitments", i) == str.concat("0x", str.hex16(p.IdComms[i]))
+//@   ensures json.pLen(result0, "merkleProofs") == len(p.MerkleProofs)
+//@   ensures forall i :: 0 <= i && i < len(p.MerkleProofs) ==> json.pRowLen(result0, "merkleProofs", i) == len(p.MerkleProofs[i])
+//@   ensures forall i, j :: 0 <= i && i < len(p.MerkleProofs) && 0 <= j && j < len(p.MerkleProofs[i]) ==> json.pStrAt2(result0, "merkleProofs", i, j) == str.concat("0x", str.hex16(p.MerkleProofs[i][j]))
+//@   loop 1
+//@     invariant 0 <= i && i <= len(p.IdComms) && len(paramsJson.IdComms) == len(p.IdComms)
+//@     invariant forall k :: 0 <= k && k < i ==> paramsJson.IdComms[k] == str.concat("0x", str.hex16(p.IdComms[k]))
+//@     decreases len(p.IdComms) - i
+//@   loop 2
+//@     invariant 0 <= i && i <= len(p.MerkleProofs) && len(paramsJson.MerkleProofs) == len(p.MerkleProofs)
+//@     invariant forall k :: 0 <= k && k < i ==> len(paramsJson.MerkleProofs[k]) == len(p.MerkleProofs[k])
+//@     invariant forall k, l :: 0 <= k && k < i && 0 <= l && l < len(p.MerkleProofs[k]) ==> paramsJson.MerkleProofs[k][l] == str.concat("0x", str.hex16(p.MerkleProofs[k][l]))
+//@     decreases len(p.MerkleProofs) - i
+//@   loop 3
+//@     invariant 0 <= j && j <= len(p.MerkleProofs[i]) && len(paramsJson.MerkleProofs) == len(p.MerkleProofs) && len(paramsJson.MerkleProofs[i]) == len(p.MerkleProofs[i])
+//@     invariant forall k :: 0 <= k && k < i ==> len(paramsJson.MerkleProofs[k]) == len(p.MerkleProofs[k])
+//@     invariant forall k, l :: 0 <= k && k < i && 0 <= l && l < len(p.MerkleProofs[k]) ==> paramsJson.MerkleProofs[k][l] == str.concat("0x", str.hex16(p.MerkleProofs[k][l]))
+//@     invariant forall l :: 0 <= l && l < j ==> paramsJson.MerkleProofs[i][l] == str.concat("0x", str.hex16(p.MerkleProofs[i][l]))
+//@     decreases len(p.MerkleProofs[i]) - j
+
+//@ func (*InsertionParameters) UnmarshalJSON
+//@   property C16
+//@   modifies p
+//@   let allNum = str.isNum(json.pStr(data, "inputHash")) &&
+//@       str.isNum(json.pStr(data, "preRoot")) &&
+//@       str.isNum(json.pStr(data, "postRoot")) &&
+//@       (forall i :: 0 <= i && i < json.pLen(data, "identityCommitments") ==> str.isNum(json.pStrAt(data, "identityCommitments", i))) &&
+//@       (forall i, j :: 0 <= i && i < json.pLen(data, "merkleProofs") && 0 <= j && j < json.pRowLen(data, "merkleProofs", i) ==> str.isNum(json.pStrAt2(data, "merkleProofs", i, j)))
+//@   ensures result == nil ==> allNum
+//@   ensures result == nil ==> p.InputHash == str.num(json.pStr(data, "inputHash"))
+//@   ensures result == nil ==> p.StartIndex == json.pNum(data, "startIndex")
+//@   ensures result == nil ==> p.PreRoot == str.num(json.pStr(data, "preRoot"))
+//@   ensures result == nil ==> p.PostRoot == str.num(json.pStr(data, "postRoot"))
+//@   ensures result == nil ==> len(p.IdComms) == json.pLen(data, "identityCommitments")
+//@   ensures result == nil ==> (forall i :: 0 <= i && i < len(p.IdComms) ==> p.IdComms[i] == str.num(json.pStrAt(data, "identityCommitments", i)))
+//@   ensures result == nil ==> len(p.MerkleProofs) == json.pLen(data, "merkleProofs")
+//@   ensures result == nil ==> (forall i :: 0 <= i && i < len(p.MerkleProofs) ==> len(p.MerkleProofs[i]) == json.pRowLen(data, "merkleProofs", i))
+//@   ensures result == nil ==> (forall i, j :: 0 <= i && i < len(p.MerkleProofs) && 0 <= j && j < len(p.MerkleProofs[i]) ==> p.MerkleProofs[i][j] == str.num(json.pStrAt2(data, "merkleProofs", i, j)))
+//@   loop 1
+//@     invariant 0 <= i && i <= len(params.IdComms) && len(p.IdComms) == len(params.IdComms)
+//@     invariant forall k :: 0 <= k && k < i ==> str.isNum(params.IdComms[k]) && p.IdComms[k] == str.num(params.IdComms[k])
+//@     decreases len(params.IdComms) - i
+//@   loop 2
+//@     invariant 0 <= i && i <= len(params.MerkleProofs) && len(p.MerkleProofs) == len(params.MerkleProofs)
+//@     invariant forall k :: 0 <= k && k < i ==> len(p.MerkleProofs[k]) == len(params.MerkleProofs[k])
+//@     invariant forall k, l :: 0 <= k && k < i && 0 <= l && l < len(params.MerkleProofs[k]) ==> str.isNum(params.MerkleProofs[k][l]) && p.MerkleProofs[k][l] == str.num(params.MerkleProofs[k][l])
+//@     decreases len(params.MerkleProofs) - i
+//@   loop 3
+//@     invariant 0 <= j && j <= len(params.MerkleProofs[i]) && len(p.MerkleProofs) == len(params.MerkleProofs) && len(p.MerkleProofs[i]) == len(params.MerkleProofs[i])
+//@     invariant forall k :: 0 <= k && k < i ==> len(p.MerkleProofs[k]) == len(params.MerkleProofs[k])
+//@     invariant forall k, l :: 0 <= k && k < i && 0 <= l && l < len(params.MerkleProofs[k]) ==> str.isNum(params.MerkleProofs[k][l]) && p.MerkleProofs[k][l] == str.num(params.MerkleProofs[k][l])
+//@     invariant forall l :: 0 <= l && l < j ==> str.isNum(params.MerkleProofs[i][l]) && p.MerkleProofs[i][l] == str.num(params.MerkleProofs[i][l])
+//@     decreases len(params.MerkleProofs[i]) - j
+
+//@ func (*DeletionParameters) MarshalJSON
+//@   property C16
+//@   requires 0 <= p.InputHash && 0 <= p.PreRoot && 0 <= p.PostRoot
+//@   requires forall i :: 0 <= i && i < len(p.IdComms) ==> 0 <= p.IdComms[i]
+//@   requires forall i, j :: 0 <= i && i < len(p.MerkleProofs) && 0 <= j && j < len(p.MerkleProofs[i]) ==> 0 <= p.MerkleProofs[i][j]
+//@   ensures result1 == nil
+//@   ensures json.pStr(result0, "inputHash") == str.concat("0x", str.hex16(p.InputHash))
+//@   ensures json.pLen(result0, "deletionIndices") == len(p.DeletionIndices)
+//@   ensures forall i :: 0 <= i && i < len(p.DeletionIndices) ==> json.pNumAt(result0, "deletionIndices", i) == p.DeletionIndices[i]
+//@   ensures json.pStr(result0, "preRoot") == str.concat("0x", str.hex16(p.PreRoot))
+//@   ensures json.pStr(result0, "postRoot") == str.concat("0x", str.hex16(p.PostRoot))
+//@   ensures json.pLen(result0, "identityCommitments") == len(p.IdComms)
+//@   ensures forall i :: 0 <= i && i < len(p.IdComms) ==> json.pStrAt(result0, "identityCommitments", i) == str.concat("0x", str.hex16(p.IdComms[i]))
+//@   ensures json.pLen(result0, "merkleProofs") == len(p.MerkleProofs)
+//@   ensures forall i :: 0 <= i && i < len(p.MerkleProofs) ==> json.pRowLen(result0, "merkleProofs", i) == len(p.MerkleProofs[i])
+//@   ensures forall i, j :: 0 <= i && i < len(p.MerkleProofs) && 0 <= j && j < len(p.MerkleProofs[i]) ==> json.pStrAt2(result0, "merkleProofs", i, j) == str.concat("0x", str.hex16(p.MerkleProofs[i][j]))
+//@   loop 1
+//@     invariant 0 <= i && i <= len(p.IdComms) && len(paramsJson.IdComms) == len(p.IdComms)
+//@     invariant forall k :: 0 <= k && k < i ==> paramsJson.IdComms[k] == str.concat("0x", str.hex16(p.IdComms[k]))
+//@     decreases len(p.IdComms) - i
+//@   loop 2
+//@     invariant 0 <= i && i <= len(p.MerkleProofs) && len(paramsJson.MerkleProofs) == len(p.MerkleProofs)
+//@     invariant forall k :: 0 <= k && k < i ==> len(paramsJson.MerkleProofs[k]) == len(p.MerkleProofs[k])
+//@     invariant forall k, l :: 0 <= k && k < i && 0 <= l && l < len(p.MerkleProofs[k]) ==> paramsJson.MerkleProofs[k][l] == str.concat("0x", str.hex16(p.MerkleProofs[k][l]))
+//@     decreases len(p.MerkleProofs) - i
+//@   loop 3
+//@     invariant 0 <= j && j <= len(p.MerkleProofs[i]) && len(paramsJson.MerkleProofs) == len(p.MerkleProofs) && len(paramsJson.MerkleProofs[i]) == len(p.MerkleProofs[i])
+//@     invariant forall k :: 0 <= k && k < i ==> len(paramsJson.MerkleProofs[k]) == len(p.MerkleProofs[k])
+//@     invariant forall k, l :: 0 <= k && k < i && 0 <= l && l < len(p.MerkleProofs[k]) ==> paramsJson.MerkleProofs[k][l] == str.concat("0x", str.hex16(p.MerkleProofs[k][l]))
+//@     invariant forall l :: 0 <= l && l < j ==> paramsJson.MerkleProofs[i][l] == str.concat("0x", str.hex16(p.MerkleProofs[i][l]))
+//@     decreases len(p.MerkleProofs[i]) - j
+
+//@ func (*DeletionParameters) UnmarshalJSON
+//@   property C16
+//@   modifies p
+//@   let allNum = str.isNum(json.pStr(data, "inputHash")) &&
+//@       str.isNum(json.pStr(data, "preRoot")) &&
+//@       str.isNum(json.pStr(data, "postRoot")) &&
+//@       (forall i :: 0 <= i && i < json.pLen(data, "identityCommitments") ==> str.isNum(json.pStrAt(data, "identityCommitments", i))) &&
+//@       (forall i, j :: 0 <= i && i < json.pLen(data, "merkleProofs") && 0 <= j && j < json.pRowLen(data, "merkleProofs", i) ==> str.isNum(json.pStrAt2(data, "merkleProofs", i, j)))
+//@   ensures result == nil ==> allNum
+//@   ensures result == nil ==> p.InputHash == str.num(json.pStr(data, "inputHash"))
+//@   ensures result == nil ==> len(p.DeletionIndices) == json.pLen(data, "deletionIndices")
+//@   ensures result == nil ==> (forall i :: 0 <= i && i < len(p.DeletionIndices) ==> p.DeletionIndices[i] == json.pNumAt(data, "deletionIndices", i))
+//@   ensures result == nil ==> p.PreRoot == str.num(json.pStr(data, "preRoot"))
+//@   ensures result == nil ==> p.PostRoot == str.num(json.pStr(data, "postRoot"))
+//@   ensures result == nil ==> len(p.IdComms) == json.pLen(data, "identityCommitments")
+//@   ensures result == nil ==> (forall i :: 0 <= i && i < len(p.IdComms) ==> p.IdComms[i] == str.num(json.pStrAt(data, "identityCommitments", i)))
+//@   ensures result == nil ==> len(p.MerkleProofs) == json.pLen(data, "merkleProofs")
+//@   ensures result == nil ==> (forall i :: 0 <= i && i < len(p.MerkleProofs) ==> len(p.MerkleProofs[i]) == json.pRowLen(data, "merkleProofs", i))
+//@   ensures result == nil ==> (forall i, j :: 0 <= i && i < len(p.MerkleProofs) && 0 <= j && j < len(p.MerkleProofs[i]) ==> p.MerkleProofs[i][j] == str.num(json.pStrAt2(data, "merkleProofs", i, j)))
+//@   loop 1
+//@     invariant 0 <= i && i <= len(params.IdComms) && len(p.IdComms) == len(params.IdComms)
+//@     invariant forall k :: 0 <= k && k < i ==> str.isNum(params.IdComms[k]) && p.IdComms[k] == str.num(params.IdComms[k])
+//@     decreases len(params.IdComms) - i
+//@   loop 2
+//@     invariant 0 <= i && i <= len(params.MerkleProofs) && len(p.MerkleProofs) == len(params.MerkleProofs)
+//@     invariant forall k :: 0 <= k && k < i ==> len(p.MerkleProofs[k]) == len(params.MerkleProofs[k])
+//@     invariant forall k, l :: 0 <= k && k < i && 0 <= l && l < len(params.MerkleProofs[k]) ==> str.isNum(params.MerkleProofs[k][l]) && p.MerkleProofs[k][l] == str.num(params.MerkleProofs[k][l])
+//@     decreases len(params.MerkleProofs) - i
+//@   loop 3
+//@     invariant 0 <= j && j <= len(params.MerkleProofs[i]) && len(p.MerkleProofs) == len(params.MerkleProofs) && len(p.MerkleProofs[i]) == len(params.MerkleProofs[i])
+//@     invariant forall k :: 0 <= k && k < i ==> len(p.MerkleProofs[k]) == len(params.MerkleProofs[k])
+//@     invariant forall k, l :: 0 <= k && k < i && 0 <= l && l < len(params.MerkleProofs[k]) ==> str.isNum(params.MerkleProofs[k][l]) && p.MerkleProofs[k][l] == str.num(params.MerkleProofs[k][l])
+//@     invariant forall l :: 0 <= l && l < j ==> str.isNum(params.MerkleProofs[i][l]) && p.MerkleProofs[i][l] == str.num(params.MerkleProofs[i][l])
+//@     decreases len(params.MerkleProofs[i]) - j
